@@ -100,12 +100,12 @@ Proof. vm_compute. repeat split. Qed.
 Theorem c08_collateral_asset : forall cfg st0 ops j b,
   Good cfg st0 ->
   let st := run cfg st0 ops in
-  zget (borrows st) j = Some b ->
+  zget (borrows st) j = Some b -> b_liq b = false ->
   mismatched_lend cfg st j = false /\ 0 < b_in b /\
   exists l pr, zget (lends st) (b_lend b) = Some l /\ zget (c_pairs cfg) (b_pair b) = Some pr /\ l_asset l = pr_in pr.
 Proof.
-  intros cfg st0 ops j b HG st Hb. destruct (run_good cfg ops st0 HG) as (_ & HS).
-  split; [exact (side_no_mismatch cfg _ j HS)|exact (HS j b Hb)].
+  intros cfg st0 ops j b HG st Hb Hq. destruct (run_good cfg ops st0 HG) as (_ & HS).
+  split; [exact (side_no_mismatch cfg _ j HS)|exact (HS j b Hb Hq)].
 Qed.
 Print Assumptions c08_collateral_asset.
 
